@@ -13,13 +13,13 @@ func init() {
 		Level: "other",
 		Run:   checkC06,
 		Explanation: "The bound (500 ms + 100 ms + latencies) and 'a healthy candidate exists' are runtime notions and are not decided. Decided are the mechanisms any such bound needs: (R1) every demotion (non-stop claim-clear unit) starts the follower loop, tracked by the WaitGroup, under no condition other than run-liveness and 'not already running'; " +
-			"(R2) the follower loop has a periodic fallback with period <= 500 ms which, for a non-leader, reads the key and starts an acquisition round both on a read error and on an empty value; (R3) candidates never give up: the follower loop returns only when its context is done; " +
+			"(R2) the follower loop has a periodic fallback with period <= 500 ms which, for a non-leader, reads the key and starts an acquisition round both on a read error and on an empty value; every pause that paces the loop is a constant <= 500 ms, and on every path between two existence checks at most one such pause (or ticker tick) elapses - also around a watch that closes and is set up again; (R3) candidates never give up: the follower loop returns only when its context is done; " +
 			"(R4) an acquisition round waits at most 100 ms of jitter and makes at most four attempts (C17-R1, shared).",
 		NotDecided: []string{"the 600 ms + latency bound itself", "that the store is reachable and answers (fault model)", "fairness between candidates"},
 		Assumptions: []string{"time.Ticker / time.After fire on time"},
 		Rules: map[string]string{
 			"R1": "in every non-stop claim-clear unit: a `go` (tracked) whose target reaches the Watch call; the guards at the go statement are only run-liveness / already-running / nil-context literals",
-			"R2": "every time.NewTicker / time.After period inside the follower loop functions folds to <= 500 ms and one exists; the periodic check function reaches an acquisition round from the Get-error edge and from the empty-value edge, and is called under claim == false",
+			"R2": "every time.NewTicker / time.After period inside the follower loop functions folds to <= 500 ms and one exists; the periodic check function reaches an acquisition round from the Get-error edge and from the empty-value edge, and is called under claim == false; no computed pause in the follower loop's functions; path exploration from every call of the check function (through the loop's single-call-site functions): at most one timer case / ticker tick is passed before the next check (claim==true and ctx.Done() edges end a path)",
 			"R3": "every Return of the follower loop's root function is guarded by ctx.Err() != nil or is the ctx.Done() case of a select",
 			"R4": "see C17-R1",
 			"R5": "every `return nil` of the acquisition function (and of the functions whose result it passes on) is guarded by the claim-set unit having returned true; in Start, the err != nil edge of the first acquisition reaches the follower transition",
